@@ -124,6 +124,10 @@ struct Slot {
   int reserve_side = 0;
   int neighbor_of = -1;
   int interleaved = 0;  // neighbour lives in the host's stride padding (two columns of one matrix: same stride, offset N)
+  // C12: column `gidx` of a caller matrix with `gcols` interleaved columns whose other columns are produced by other
+  // tasks at the same time (threads splitting one result by columns: disjoint data, byte-adjacent)
+  int group = -1, gidx = 0;
+  uint64_t gcols = 0;
 };
 
 enum Op {
@@ -233,6 +237,8 @@ struct GenCfg {
   bool repeats = false;         // C15 repeat calls
   bool small_pools = false;     // C15 colliding parameter pools
   bool q120 = false;
+  bool column_world = false;    // C12 variant 1: every task writes columns of shared blocks with vector-output entry points
+  bool column_groups = false;   // C12: outputs of different tasks are interleaved columns of one block
   bool simple_storm = false;    // C12: tasks hammer one *_simple function over many dimensions (cache eviction / replacement paths)
   bool large_world = false;     // C12: a few worlds use only large dimensions (4096..16384), few tasks, homogeneous work
   bool edge_products = false;   // some products sit at the edge of the 52-bit budget and are compared within the documented error bound
@@ -301,6 +307,9 @@ struct Exec {
   void run_call(int idx);          // executes call idx (allocating operands as needed)
   void run_range(int task);        // all calls of a task (or -1) in program order
   void release_all();
+  void place_groups();  // setup executor only: carve the column groups
+  std::vector<uint8_t*> group_blocks;
+  uint64_t n_group_slots = 0;
   uint64_t slot_bytes(int slot) const;
   uint8_t* ensure_slot(int slot);
 };
